@@ -205,7 +205,7 @@ def run_check(tier, seed):
                 evals += 1
                 if pr['enum'].get((n, vn)) != v: broken.append({'kind': 'translator-vs-rustc', 'enum': n + '::' + vn, 'translated': v, 'rustc': pr['enum'].get((n, vn))})
         arms = dict((a, b) for a, b in tt['opcode_from']['arms']); disc = dict(tt['enums'][0][1])
-        for nn, got in pr['opfrom'].items():
+        for nn, got in (pr['opfrom'].items() if not tt['opcode_from'].get('error') else []):
             evals += 1
             want = disc[arms.get(nn, tt['opcode_from']['default'])]
             if got != want: broken.append({'kind': 'translator-vs-rustc', 'opcode_from': nn, 'translated': want, 'rustc': got})
